@@ -271,6 +271,38 @@ func init() {
 		return nil, true
 	}
 
+	// ---- sort.Slice (the real one goes through reflectlite.Swapper) ----
+	sortSlice := func(stable bool) intrinsicFn {
+		return func(m *Machine, caller *frame, fn *ssa.Function, args []value) (value, bool) {
+			x, _ := args[0].(iface).v.([]value)
+			less := args[1]
+			n := len(x)
+			swap := &hostFunc{name: "swap", fn: func(m *Machine, a []value) value {
+				i, j := m.concretize(a[0].(*Term)), m.concretize(a[1].(*Term))
+				if i >= uint64(n) || j >= uint64(n) {
+					m.goPanic("runtime error: index out of range in sort.Slice swap")
+				}
+				ti, tj := copyVal(x[i]), copyVal(x[j])
+				m.setCell(&x[i], tj)
+				m.setCell(&x[j], ti)
+				return nil
+			}}
+			ls := structure{less, swap}
+			if stable {
+				m.call(m.stdFunc("sort", "stable_func"), []value{ls, m.st.BV(64, uint64(n))})
+			} else {
+				limit := 0
+				for v := n; v > 0; v >>= 1 {
+					limit++
+				}
+				m.call(m.stdFunc("sort", "pdqsort_func"), []value{ls, m.st.BV(64, 0), m.st.BV(64, uint64(n)), m.st.BV(64, uint64(limit))})
+			}
+			return nil, true
+		}
+	}
+	intrinsics["sort.Slice"] = sortSlice(false)
+	intrinsics["sort.SliceStable"] = sortSlice(true)
+
 	// ---- crc32 ----
 	intrinsics["hash/crc32.ieeeInit"] = nop
 	intrinsics["hash/crc32.update"] = func(m *Machine, caller *frame, fn *ssa.Function, args []value) (value, bool) {
